@@ -14,8 +14,11 @@ from pathlib import Path
 from . import tlc as tlcmod
 
 ROOT = Path(__file__).resolve().parents[2]
-EVID = ROOT / "evidence"
-REPLAYS = ROOT / "out" / "replays"
+# XV_OUT redirects evidence and replays (used by tools/sweep.sh so that exploratory runs do not
+# overwrite the evidence of the registered commands)
+_OUT = os.environ.get("XV_OUT")
+EVID = (Path(_OUT) if _OUT else ROOT) / "evidence"
+REPLAYS = (Path(_OUT) if _OUT else ROOT / "out") / "replays"
 FINDINGS = ROOT / "known_findings.json"
 
 
